@@ -514,7 +514,12 @@ impl<A: Address> Net<A> {
         CB: Callback<A>,
         W: Warn<Warning<A>>,
     {
-        if let Some(pid) = self.peers.pid_from_addr(addr) {
+        // A peer that the application has neither accepted nor rejected yet is
+        // handled like an unknown address: its connection must see the connect
+        // request exactly once, in `accept`.
+        let pid = self.peers.pid_from_addr(addr);
+        let pending = pid.map_or(false, |pid| self.peers[pid].conn.is_unconnected());
+        if let (Some(pid), false) = (pid, pending) {
             let (packet, e) = self.peers[pid].conn.feed(
                 &mut cc(cb, addr),
                 &mut wp(warn, addr, pid),
@@ -538,7 +543,11 @@ impl<A: Address> Net<A> {
                 ..
             }) = packet
             {
-                if self.accept_connections {
+                if pending {
+                    // Retransmitted connect request, the application hasn't
+                    // decided yet.
+                    (ReceivePacket::none(), Ok(()))
+                } else if self.accept_connections {
                     // TODO: This is vulnerable to IP spoofing.
                     let (pid, _) = self.peers.new_peer(addr, token.is_some());
                     (ReceivePacket::connect(pid), Ok(()))
